@@ -163,6 +163,8 @@ def sowCasesHead (batchsizeArg numBatchesArg batchsize numBatches shuffle : Opti
 
 def sowCombosRunnerShuffle (shuffleArg selfShuffle : Option Int) : Option Int := selfShuffle
 
+def sowCombosShuffleDefault : Option Int := (some 0 : Option Int)
+
 def sowCasesRunnerShuffle (selfShuffle : Option Int) : Option Int := selfShuffle
 
 def calcCleanUp (cleanUp : Option Bool) (allowIncomplete : Bool) : Except PyErr (Option Bool × Bool) :=
